@@ -1,7 +1,8 @@
 import Qwt.Model.Iter
 
 /-! The `WTIterator` state machine refines the deque specification, for every history of
-`next` / `next_back` / `len` calls, whenever `get_unchecked` returns the indexed element. -/
+`next` / `next_back` / `len` / `nth` / `nth_back` / `count` / `last` calls, whenever
+`get_unchecked` returns the indexed element. -/
 namespace Qwt.Iter
 
 theorem Out_ofOpt_ok_some (v : Nat) : Out.ofOpt ((Except.ok v : M Nat).map some) = Out.some v := rfl
@@ -34,43 +35,294 @@ theorem window_dropLast (S : List Nat) (i e : Nat) (h : i < e) (he : e ≤ S.len
   rw [List.dropLast_eq_take, window_length S i e he, List.take_take]
   congr 1; omega
 
-theorem run_eq_spec (getU : Nat → M Nat) (S : List Nat)
-    (hget : ∀ i, i < S.length → getU i = .ok (S.getD i 0))
-    (ops : List IterOp) :
+/-- the elements not yet yielded -/
+def window (S : List Nat) (it : WTIter) : List Nat := (S.drop it.i).take (it.e - it.i)
+
+/-- front index ≤ end index ≤ length -/
+def Inv (S : List Nat) (it : WTIter) : Prop := it.i ≤ it.e ∧ it.e ≤ S.length
+
+/-- a single-call function on states `σ` implements a specification step on the remaining elements
+    `win s`, preserving the invariant -/
+def RefinesG {σ : Type} (inv : σ → Prop) (win : σ → List Nat) (one : σ → σ × Out)
+    (sp : List Nat → List Nat × Out) : Prop :=
+  ∀ s, inv s → inv (one s).1 ∧ sp (win s) = (win (one s).1, (one s).2)
+
+/-- the instance for `WTIterator` -/
+abbrev Refines (S : List Nat) (one : WTIter → WTIter × Out) (sp : List Nat → List Nat × Out) : Prop :=
+  RefinesG (Inv S) (window S) one sp
+
+section
+variable (getU : Nat → M Nat) (S : List Nat) (hget : ∀ i, i < S.length → getU i = .ok (S.getD i 0))
+include hget
+
+theorem next_refines : Refines S (stepNext getU) (fun rem => specStep rem .next) := by
+  intro it ⟨hie, he⟩
+  by_cases h : it.i < it.e
+  · have hi : it.i < S.length := by omega
+    simp only [stepNext, h, if_true, hget it.i hi, Out_ofOpt_ok_some, window, Inv]
+    refine ⟨⟨by omega, he⟩, ?_⟩
+    rw [window_cons S it.i it.e h he]; rfl
+  · have h0 : it.e - it.i = 0 := by omega
+    simp only [stepNext, h, if_false, window, h0, List.take_zero, Inv]
+    exact ⟨⟨hie, he⟩, rfl⟩
+
+theorem back_refines : Refines S (stepBack getU) (fun rem => specStep rem .nextBack) := by
+  intro it ⟨hie, he⟩
+  by_cases h : it.i < it.e
+  · have hi : it.e - 1 < S.length := by omega
+    simp only [stepBack, h, if_true, hget (it.e - 1) hi, Out_ofOpt_ok_some, window, Inv]
+    refine ⟨⟨by omega, by omega⟩, ?_⟩
+    simp only [specStep, window_getLast S it.i it.e h he, window_dropLast S it.i it.e h he]
+  · have h0 : it.e - it.i = 0 := by omega
+    simp only [stepBack, h, if_false, window, h0, List.take_zero, Inv]
+    exact ⟨⟨hie, he⟩, rfl⟩
+
+end
+
+/-- a refined front step never answers with a fault -/
+theorem next_out (rem : List Nat) : ∀ f, (specStep rem .next).2 ≠ Out.fault f := by
+  intro f; cases rem <;> simp [specStep]
+
+theorem back_out (rem : List Nat) : ∀ f, (specStep rem .nextBack).2 ≠ Out.fault f := by
+  intro f; simp only [specStep]; cases rem.getLast? <;> simp
+
+/-- `nth` through a refined `next`: the provided method yields element `k` of what remains and
+    leaves everything after it -/
+theorem nth_refines {σ : Type} (inv : σ → Prop) (win : σ → List Nat) (one : σ → σ × Out)
+    (h1 : RefinesG inv win one (fun rem => specStep rem .next)) (k : Nat) :
+    RefinesG inv win (stepNth one k) (fun rem => specStep rem (.nth k)) := by
+  induction k with
+  | zero =>
+    intro it hi
+    obtain ⟨hinv, hs⟩ := h1 it hi
+    refine ⟨hinv, ?_⟩
+    simp only [stepNth]
+    rw [← hs]
+    cases win it <;> simp [specStep]
+  | succ k ih =>
+    intro it hi
+    obtain ⟨hinv, hs⟩ := h1 it hi
+    have hnf : ∀ f, (one it).2 ≠ Out.fault f := by
+      intro f; have := next_out (win it) f
+      have h2 : (specStep (win it) .next).2 = (one it).2 := by
+        have := congrArg Prod.snd hs; simpa using this
+      rwa [h2] at this
+    obtain ⟨hinv', hs'⟩ := ih (one it).1 hinv
+    have hstep : stepNth one (k + 1) it = stepNth one k (one it).1 := by
+      rw [stepNth]
+      split
+      · next f hr => exact absurd hr (hnf f)
+      · rfl
+    rw [hstep]
+    refine ⟨hinv', ?_⟩
+    rw [← hs']
+    have hw : win (one it).1 = (win it).tail := by
+      have := congrArg Prod.fst hs
+      cases hwi : win it <;> simp [specStep, hwi] at this ⊢ <;> first | exact this.symm | exact this
+    rw [hw]
+    cases win it with
+    | nil => simp [specStep]
+    | cons x xs => simp [specStep]
+
+theorem dropLast_take (l : List Nat) (k : Nat) :
+    l.dropLast.take (l.dropLast.length - (k + 1)) = l.take (l.length - (k + 1 + 1)) := by
+  rw [List.dropLast_eq_take, List.take_take, List.length_take]
+  congr 1; omega
+
+theorem reverse_dropLast_getElem? (l : List Nat) (k : Nat) :
+    l.dropLast.reverse[k]? = l.reverse[k + 1]? := by
+  rcases List.eq_nil_or_concat l with rfl | ⟨ys, y, rfl⟩
+  · simp
+  · simp
+
+theorem nthBack_refines {σ : Type} (inv : σ → Prop) (win : σ → List Nat) (one : σ → σ × Out)
+    (h1 : RefinesG inv win one (fun rem => specStep rem .nextBack)) (k : Nat) :
+    RefinesG inv win (stepNth one k) (fun rem => specStep rem (.nthBack k)) := by
+  induction k with
+  | zero =>
+    intro it hi
+    obtain ⟨hinv, hs⟩ := h1 it hi
+    refine ⟨hinv, ?_⟩
+    simp only [stepNth]
+    rw [← hs]
+    simp only [specStep]
+    rcases List.eq_nil_or_concat (win it) with h | ⟨ys, y, h⟩
+    · simp [h]
+    · simp [h]
+  | succ k ih =>
+    intro it hi
+    obtain ⟨hinv, hs⟩ := h1 it hi
+    have hnf : ∀ f, (one it).2 ≠ Out.fault f := by
+      intro f; have := back_out (win it) f
+      have h2 : (specStep (win it) .nextBack).2 = (one it).2 := by
+        have := congrArg Prod.snd hs; simpa using this
+      rwa [h2] at this
+    obtain ⟨hinv', hs'⟩ := ih (one it).1 hinv
+    have hstep : stepNth one (k + 1) it = stepNth one k (one it).1 := by
+      rw [stepNth]
+      split
+      · next f hr => exact absurd hr (hnf f)
+      · rfl
+    rw [hstep]
+    refine ⟨hinv', ?_⟩
+    rw [← hs']
+    have hw : win (one it).1 = (win it).dropLast := by
+      have := congrArg Prod.fst hs
+      simp only [specStep] at this
+      rcases List.eq_nil_or_concat (win it) with h | ⟨ys, y, h⟩
+      · rw [h] at this ⊢; simpa using this.symm
+      · rw [h] at this ⊢; simpa using this.symm
+    rw [hw]
+    simp only [specStep, dropLast_take, reverse_dropLast_getElem?]
+
+/-- draining through a refined `next` with enough fuel: all remaining elements are consumed, counted,
+    and the last one is remembered -/
+theorem drain_spec {σ : Type} (inv : σ → Prop) (win : σ → List Nat) (one : σ → σ × Out)
+    (h1 : RefinesG inv win one (fun rem => specStep rem .next)) :
+    ∀ fuel it c l, inv it → (win it).length < fuel →
+      let r := drain one fuel it c l
+      inv r.1 ∧ win r.1 = [] ∧ r.2.1 = c + (win it).length ∧
+        r.2.2 = (match (win it).getLast? with | some x => Out.some x | none => l) := by
+  intro fuel
+  induction fuel with
+  | zero => intro it c l _ h; omega
+  | succ fuel ih =>
+    intro it c l hi hlen
+    obtain ⟨hinv, hs⟩ := h1 it hi
+    cases hw : win it with
+    | nil =>
+      rw [hw] at hs
+      have ho : (one it).2 = Out.none := by
+        have := congrArg Prod.snd hs; simpa [specStep] using this.symm
+      have hw' : win (one it).1 = [] := by
+        have := congrArg Prod.fst hs; simpa [specStep] using this.symm
+      simp only [drain, ho]
+      exact ⟨hinv, hw', by simp, by simp⟩
+    | cons x xs =>
+      rw [hw] at hs
+      have ho : (one it).2 = Out.some x := by
+        have := congrArg Prod.snd hs; simpa [specStep] using this.symm
+      have hw' : win (one it).1 = xs := by
+        have := congrArg Prod.fst hs; simpa [specStep] using this.symm
+      have hlen' : (win (one it).1).length < fuel := by
+        rw [hw']; rw [hw] at hlen; simp at hlen; omega
+      have := ih (one it).1 (c + 1) (Out.some x) hinv hlen'
+      simp only [drain, ho]
+      obtain ⟨a, b, c', d⟩ := this
+      refine ⟨a, b, ?_, ?_⟩
+      · rw [c', hw']; simp; omega
+      · rw [d, hw']
+        cases xs with
+        | nil => simp
+        | cons y ys => simp [List.getLast?_cons_cons]; rfl
+
+section
+variable (getU : Nat → M Nat) (S : List Nat) (hget : ∀ i, i < S.length → getU i = .ok (S.getD i 0))
+include hget
+
+/-- every single call refines the specification step -/
+theorem step_refines (op : IterOp) : Refines S (fun it => step getU it op) (fun rem => specStep rem op) := by
+  cases op with
+  | next => exact next_refines getU S hget
+  | nextBack => exact back_refines getU S hget
+  | len =>
+    intro it hi
+    have hs : sub it.e it.i = .ok (it.e - it.i) := by simp [sub, hi.1]
+    refine ⟨hi, ?_⟩
+    simp only [step, hs, specStep, window, window_length S it.i it.e hi.2]
+    rfl
+  | nth k => exact nth_refines _ _ _ (next_refines getU S hget) k
+  | nthBack k => exact nthBack_refines _ _ _ (back_refines getU S hget) k
+  | count =>
+    intro it hi
+    have hl : (window S it).length < it.e - it.i + 1 := by
+      simp only [window, window_length S it.i it.e hi.2]; omega
+    obtain ⟨a, b, c, d⟩ := drain_spec _ _ _ (next_refines getU S hget) (it.e - it.i + 1) it 0 .none hi hl
+    refine ⟨a, ?_⟩
+    simp only [step, specStep, b, c, d]
+    cases (window S it).getLast? <;> simp
+  | last =>
+    intro it hi
+    have hl : (window S it).length < it.e - it.i + 1 := by
+      simp only [window, window_length S it.i it.e hi.2]; omega
+    obtain ⟨a, b, _, d⟩ := drain_spec _ _ _ (next_refines getU S hget) (it.e - it.i + 1) it 0 .none hi hl
+    refine ⟨a, ?_⟩
+    simp only [step, specStep, b, d]
+    trivial
+
+theorem run_eq_spec (ops : List IterOp) :
     ∀ it : WTIter, it.i ≤ it.e → it.e ≤ S.length →
       run getU it ops = specRun ((S.drop it.i).take (it.e - it.i)) ops := by
   induction ops with
   | nil => intro it _ _; rfl
   | cons op ops ih =>
     intro it hie he
-    cases op with
-    | next =>
-      by_cases h : it.i < it.e
-      · have hi : it.i < S.length := by omega
-        simp only [run, step, h, if_true, hget it.i hi, Out_ofOpt_ok_some]
-        rw [window_cons S it.i it.e h he]
-        simp only [specRun, specStep]
-        rw [ih { it with i := it.i + 1 } (by simp; omega) (by simpa using he)]
-      · have : it.e - it.i = 0 := by omega
-        simp only [run, step, h, if_false, this, List.take_zero, specRun, specStep]
-        have := ih it hie he
-        rw [‹it.e - it.i = 0›] at this
-        simpa using this
-    | nextBack =>
-      by_cases h : it.i < it.e
-      · have hi : it.e - 1 < S.length := by omega
-        simp only [run, step, h, if_true, hget (it.e - 1) hi, Out_ofOpt_ok_some]
-        simp only [specRun, specStep, window_getLast S it.i it.e h he, window_dropLast S it.i it.e h he]
-        rw [ih { it with e := it.e - 1 } (by simp; omega) (by simp; omega)]
-      · have h0 : it.e - it.i = 0 := by omega
-        simp only [run, step, h, if_false, h0, List.take_zero, specRun, specStep, List.getLast?_nil]
-        have := ih it hie he
-        rw [h0] at this
-        simpa using this
-    | len =>
-      have hs : sub it.e it.i = .ok (it.e - it.i) := by simp [sub, hie]
-      simp only [run, step, hs, specRun, specStep, window_length S it.i it.e he]
-      rw [ih it hie he]
-      rfl
+    obtain ⟨hinv, hs⟩ := step_refines getU S hget op it ⟨hie, he⟩
+    simp only [run, specRun]
+    have hs' : specStep ((S.drop it.i).take (it.e - it.i)) op = (window S (step getU it op).1, (step getU it op).2) := hs
+    rw [hs']
+    simp only
+    rw [ih (step getU it op).1 hinv.1 hinv.2]
+    rfl
+
+end
+
+/-! ### one-ended iterators -/
+
+section
+variable (getO : Nat → M (Option Nat)) (S : List Nat) (hget : ∀ i, getO i = .ok S[i]?)
+include hget
+
+theorem fwdNext_refines :
+    RefinesG (fun _ : Nat => True) (fun i => S.drop i) (fwdNext getO) (fun rem => specStep rem .next) := by
+  intro i _
+  refine ⟨trivial, ?_⟩
+  simp only [fwdNext, hget i]
+  by_cases h : i < S.length
+  · rw [List.drop_eq_getElem_cons h]
+    simp [specStep, Out.ofOpt, List.getElem?_eq_getElem h]
+  · have h1 : S.drop i = [] := List.drop_eq_nil_of_le (by omega)
+    have h2 : S.drop (i + 1) = [] := List.drop_eq_nil_of_le (by omega)
+    have h3 : S[i]? = none := List.getElem?_eq_none (by omega)
+    simp [specStep, Out.ofOpt, h1, h2, h3]
+
+theorem fwdStep_refines (op : FwdOp) :
+    RefinesG (fun _ : Nat => True) (fun i => S.drop i) (fun i => fwdStep getO S.length i op)
+      (fun rem => specStep rem op.toIterOp) := by
+  cases op with
+  | next => exact fwdNext_refines getO S hget
+  | nth k => exact nth_refines _ _ _ (fwdNext_refines getO S hget) k
+  | count =>
+    intro i hi
+    have hl : (S.drop i).length < S.length - i + 1 := by simp [List.length_drop]
+    obtain ⟨a, b, c, d⟩ := drain_spec _ _ _ (fwdNext_refines getO S hget) (S.length - i + 1) i 0 .none hi hl
+    refine ⟨a, ?_⟩
+    simp only [fwdStep, FwdOp.toIterOp, specStep, b, c, d]
+    cases (S.drop i).getLast? <;> simp
+  | last =>
+    intro i hi
+    have hl : (S.drop i).length < S.length - i + 1 := by simp [List.length_drop]
+    obtain ⟨a, b, _, d⟩ := drain_spec _ _ _ (fwdNext_refines getO S hget) (S.length - i + 1) i 0 .none hi hl
+    refine ⟨a, ?_⟩
+    simp only [fwdStep, FwdOp.toIterOp, specStep, b, d]
+    trivial
+
+/-- every history of `next` / `nth` / `count` / `last` on an index-driven iterator whose indexed read
+    is correct yields what the deque specification yields on the elements from the start index on -/
+theorem fwdRun_eq_spec (ops : List FwdOp) :
+    ∀ i, fwdRun getO S.length i ops = specRun (S.drop i) (ops.map FwdOp.toIterOp) := by
+  induction ops with
+  | nil => intro i; rfl
+  | cons op ops ih =>
+    intro i
+    obtain ⟨_, hs⟩ := fwdStep_refines getO S hget op i trivial
+    simp only [fwdRun, List.map_cons, specRun]
+    have hs' : specStep (S.drop i) op.toIterOp =
+        (S.drop (fwdStep getO S.length i op).1, (fwdStep getO S.length i op).2) := hs
+    rw [hs']
+    simp only
+    rw [ih]
+
+end
 
 end Qwt.Iter
